@@ -89,6 +89,10 @@ class C12(Prop):
         k = case.get("kind")
         s = case.get("s", "")
         desc = "C12/hang" if k == "soup" else f"C12/hang/{k}"
+        # listed mechanism (dependency): a TAB inside the block-prefix region of a line (indentation, quote and list
+        # markers) makes marko's prefix matching, which compares tab-expanded lines with raw offsets, loop for ever
+        if k == "soup" and not case["opts"].get("plaintext") and re.search(r"(?m)^[ >]*(?:(?:[-+*]|\d+[.)])[ ]*)+\t[ \t]*>", s):
+            desc = "C12/hang/tab-after-list-marker-before-quote-marker"
         col.violation("soup" if k == "soup" else str(k), desc + ("/hard-watchdog" if hard else "/soft-alarm"), case,
                       {"timeout": "hard" if hard else "soft", "input": s[:200]})
 
